@@ -105,6 +105,31 @@ func TestVerifReplay(t *testing.T) {
 	b, _ := json.Marshal(out)
 	fmt.Printf("REPLAY-RESULT %%s\\n", b)
 }
+
+// TestVerifWitness runs several (harness, input) pairs given as a JSON list.
+func TestVerifWitness(t *testing.T) {
+	var list []struct {
+		Harness string            `json:"harness"`
+		Model   map[string]uint64 `json:"model"`
+	}
+	b, err := os.ReadFile(os.Getenv("VERIF_WITNESSES"))
+	if err != nil {
+		t.Fatal(err)
+	}
+	if err := json.Unmarshal(b, &list); err != nil {
+		t.Fatal(err)
+	}
+	for i, w := range list {
+		rt.SetModel(w.Model)
+		fails, af, p := rt.RunRegistered(w.Harness)
+		out := map[string]interface{}{"i": i, "harness": w.Harness, "assume_failed": af, "fails": fails, "panic": nil}
+		if p != nil {
+			out["panic"] = fmt.Sprint(p)
+		}
+		ob, _ := json.Marshal(out)
+		fmt.Printf("WITNESS-RESULT %%s\\n", ob)
+	}
+}
 '''
 
 
@@ -179,6 +204,22 @@ def native_replay(job, cex_path, scratch):
             return dict(harness=job["harness"], assume_failed=False, fails=[], panic=r.stdout[-600:])
         return dict(error="no replay result", output=r.stdout[-1500:])
     return json.loads(m.group(1))
+
+
+def native_witnesses(pkg, witnesses, scratch):
+    """Runs (harness, model) pairs natively in one go test; returns list of results."""
+    ov = overlay_map(scratch, [pkg])
+    wf = os.path.join(scratch, "witness_%s.json" % pkg.replace("/", "_"))
+    json.dump(witnesses, open(wf, "w"))
+    try:
+        r = sh(["go", "test", "-vet=off", "-count=1", "-overlay", ov, "-run", "TestVerifWitness", "-v", "./" + pkg],
+               cwd=REPO, env=dict(GOENV, VERIF_WITNESSES=wf), timeout=900)
+    except subprocess.TimeoutExpired:
+        return None
+    out = [json.loads(m) for m in re.findall(r"WITNESS-RESULT (\{.*\})", r.stdout)]
+    if len(out) != len(witnesses):
+        return None
+    return out
 
 
 def reproduced(cex, rr):
@@ -366,6 +407,34 @@ def run(pid, spec, a, seed, scratch, t0):
                 else:
                     inconclusive.append("%s: counterexample for %r did not reproduce natively (%s)" % (h, c["label"], json.dumps(rr)[:300]))
 
+    # translator validation: inputs that the engine drove to the end of a harness
+    # with every assertion discharged must run natively without a failed
+    # assumption, assertion or panic
+    validated = 0
+    if not violations:
+        by_pkg = {}
+        for r in results:
+            if r.get("special") is not None or r["res"] is None:
+                continue
+            if r["job"].get("no_native"):
+                continue
+            for res in r["res"]["results"]:
+                if res["counterexamples"]:
+                    continue
+                for w in (res.get("witness_inputs") or [])[:1 if a.tier == "quick" else 2]:
+                    by_pkg.setdefault(r["job"]["pkg"], []).append(dict(harness=r["job"]["harness"], model=w))
+        for pkg, ws in by_pkg.items():
+            outs = native_witnesses(pkg, ws, scratch)
+            if outs is None:
+                inconclusive.append("translator validation: native witness run failed for package %s" % pkg)
+                continue
+            for w, o in zip(ws, outs):
+                if o.get("assume_failed") or o.get("fails") or o.get("panic"):
+                    inconclusive.append("translator validation: engine and native run disagree on %s with input %s: native %s" % (w["harness"], json.dumps(w["model"])[:200], json.dumps(o)[:200]))
+                else:
+                    validated += 1
+    replays += validated
+
     wall = time.time() - t0
     nontrivial = sum(1 for lab, st in labels.items() if isinstance(st, dict) and (st["by_solver"] + st["by_normaliser"]) > 0) + \
         sum(1 for lab, st in labels.items() if not isinstance(st, dict) and st > 0)
@@ -383,7 +452,7 @@ def run(pid, spec, a, seed, scratch, t0):
             obligations_total=ob_total, obligations_by_solver=ob_solver, obligations_by_normal_form=ob_anf, obligations_trivial=ob_trivial,
             obligations_by_label=labels, functions_encoded=funcs, source_hashes=hashes,
             bounds=bounds_run, vacuity_witnesses=reached, models_and_summaries_used=notes,
-            counterexamples_replayed=replays, normal_form_crosschecks_by_solver=cross,
+            counterexamples_replayed=replays - validated, witness_inputs_validated_natively=validated, normal_form_crosschecks_by_solver=cross,
             known_findings_matched=[dict(id=k["id"], harness=h, label=l) for k, h, l in known_hits],
             inconclusive=inconclusive, exhaustive=False,
             explanation=spec.get("explanation", ""),
